@@ -122,6 +122,20 @@ def matrix_cases():
         both(b3, [op, [[op, [L, R]], U]])
         both(b2, ['not', [op, [L, R]]])
         both(b2, [op, [['not', L], R]])
+    # constant operands (literal or folded) at every position: the truth tables do not change when the compiler folds
+    T, F = ['const', 'bool', True], ['const', 'bool', False]
+    lt = ['lt', ['const', 'int', 1], ['const', 'int', 2]]        # folds to TRUE
+    gt = ['gt', ['const', 'int', 1], ['const', 'int', 2]]        # folds to FALSE
+    nul = ['eq', ['mod', ['const', 'int', 1], ['const', 'int', 0]], ['const', 'int', 1]]   # folds to NULL
+    for op in ('and', 'or'):
+        for c in (T, F, lt, gt, nul):
+            both(b2, [op, [L, c]])
+            both(b2, [op, [c, L]])
+            both(b2, [op, [L, c, R]])
+            both(b2, [op, [L, R, c]])
+            both(b2, ['isnull', [op, [L, c]]])
+            both(b2, ['fn', 'coalesce', [[op, [L, c]], R]])
+            both(b2, ['not', [op, [L, c]]])
     both(b3, ['or', [L, ['and', [R, U]]]])
     both(b3, ['and', [L, ['or', [R, U]]]])
     both(b3, ['or', [['and', [L, R]], U]])
